@@ -11,6 +11,8 @@ CONSTANTS
   PStates = {"creating", "created", "dropping", "dropped", "tombstone"}
   Concrete <- NamesPlain
   Now = 100
+  Skews = {"behind", "equal", "window", "ahead", "far"}
+  ClampLocal = FALSE
   FixStaleDb = TRUE
   LiveDbGuard = TRUE
   SafeKeys = TRUE
